@@ -18,7 +18,9 @@ LEVEL_TEXT = ("Theorems in coq/Props/C05.v about the executable model coq/Link/L
               "(= the canonical value, given the codec's round-trip law) unless another store of the history collided "
               "on the storage key. Tied to /repo by running the extracted model on the same random histories "
               "(<=30 ops quick, <=300 thorough) over one LinkSystem and store as the Go harness: CID v0/v1 x 5 codecs x "
-              "sha2-256/sha2-512/sha3-256/identity x full/truncated digests, basicnode and bindnode holders, "
+              "sha2-256/sha2-512/sha3-256/identity x full/truncated digests, basicnode and bindnode holders, schema-typed "
+              "holders whose representation differs from the type-level view (bindnode tuple / stringjoin / rename structs, "
+              "keyed union, gendemo) as the node stored / computed and as the load prototype, "
               "re-created values in other insertion orders, memstore and cidlink.Memory, store contents compared; 2/5 of the "
               "histories run on cidlink.LinkSystemUsingMulticodecRegistry over a PRIVATE registry (standard numbers "
               "re-bound to other implementations, private numbers, numbers bound for encoding only / decoding only), "
